@@ -709,6 +709,7 @@ def gen(rng, tier):
     # lines() after writing through the same object / after text() / twice; a reader then a lazily opening writer; File::copy and
     # File::move of an object with unflushed writes; a destination that accepts no byte (/dev/full)
     full_ok = _full_ok()
+    cases.append(["xdirlines"])
     for i in range(120 if quick else 2000):
         t, _ = gen_text(rng, 5)
         n = rng.choice([0, 1, 5, 100, 4095, 4096, 4097, 9000, 70000])
@@ -1109,7 +1110,9 @@ LEVEL_TEXT = ("Proved in Lean 4 about the executable model the driver runs (AslM
 LEVEL_TEXT += (" Persistent objects (lazily opened handle + cached stat information, transcribed from File.h/File.cpp/TextFile.cpp): after "
                "close() every object, whatever it cached and wherever its handle stood, answers size/content/firstBytes/lines/text from the "
                "path's current bytes (obj_after_close), and so do content/text/firstBytes of an object in ANY state — open in any mode at any "
-               "position, anything cached — and size() of an open object (obj_reads); stat-backed queries interleaved with writes on an open object change neither disk "
+               "position, anything cached — and size() of an open object (obj_reads); they leave the object as it was, so a lazily opening writer still works afterwards "
+               "(obj_readers_keep_state, obj_read_then_append); File::copy/move of a written-through object carry everything written "
+               "(obj_copy_move_preserve); a destination that accepts no byte is reported and the source kept (full_device); stat-backed queries interleaved with writes on an open object change neither disk "
                "nor handle (obj_history); open for WRITE, any sequence of writes and queries, close: size() is the number of bytes written "
                "and content() exactly those bytes (obj_write_query_close).")
 LEVEL_TEXT += (" End to end: after any history of writers, if the reference store holds c then a fresh object returns c / c.length / "
@@ -1127,7 +1130,7 @@ LEVEL_NOTE = ("Hypotheses (modelled, exercised by K, not verified): stdio and PO
               "protocol comment in tools/props/c17.py). Known finding stale-size-closed-object: size() of an object that is NOT open answers "
               "from the size it cached before another object changed the file (the cache exists so that Directory listings need no stat per "
               "file; exists()/close()/content()/text() discard it) — transcribed in the model, KNOWN probe xstalesize, obj_reads leaves "
-              "exactly that case out; lines()/read() of an open object continue from its position (by design: remaining lines). "
+              "exactly that case out; read() of an explicitly opened object continues from its position (that is what it is for). "
               "Partial: text_utf16_partial excludes "
               "exactly the texts with an adjacent CR LF (known finding utf16-crlf-fold: deliberate folding in TextFile::text(), "
               "text_utf16_crlf_counterexample); paths are abstract (4 names in 2 directories: no symlinks/hard links, permissions or disk-full "
@@ -1144,4 +1147,8 @@ LEVEL_NOTE = ("Hypotheses (modelled, exercised by K, not verified): stdio and PO
               "open object ignored what was written through it and content()/text() used a stale cached size (ae75f36); content()/text()/"
               "firstBytes() of an object that is already open read from its current position, and returned nothing when it was open for writing "
               "(b600b6e, 4c57e14: they now flush and read through a separate handle); open() on an open object leaked the old handle with its "
-              "unflushed data (a48095a).")
+              "unflushed data (a48095a); lines() of an open object started at its position and never returned when it was open for writing "
+              "(b935145), and looped forever on a read error (9eba4eb); the whole-file readers left the object open read-only so that a "
+              "following append/write/put failed (630b40d); File::copy/move ignored the object's unflushed writes (b3be5cd); Directory::copy "
+              "reported success when the final flush failed and move then deleted the source (78aac25). The model has no I/O errors except "
+              "the one destination `full` (/dev/full) of copy/move; lines() of a directory is a transcribed constant (xdirlines).")
